@@ -125,15 +125,27 @@ func solveOne(o *Obligation, opt SolveOpts) {
 	var total float64
 	var lastOut string
 	o.Status = "unknown"
-	slv := solvers(opt.TimeoutS)
-	tmo := opt.TimeoutS
+	type stage struct {
+		cfg SolverCfg
+		tmo int
+	}
+	all := solvers(opt.TimeoutS)
+	quickT := 2
+	if quickT > opt.TimeoutS {
+		quickT = opt.TimeoutS
+	}
+	// portfolio schedule: a short attempt with the usually fastest solver, then the others in full
+	stages := []stage{{solvers(quickT)[0], quickT}, {all[1], opt.TimeoutS}, {all[0], opt.TimeoutS}, {all[2], opt.TimeoutS}}
 	if o.ExpectSat {
 		// vacuity guard: a quick satisfiability probe; only a definite unsat is an error
-		tmo = 3
-		slv = solvers(tmo)[:1]
+		stages = []stage{{solvers(3)[0], 3}}
 	}
-	for _, s := range slv {
-		st, out, secs := runSolver(s, file, tmo)
+	if opt.Race {
+		stages = []stage{{all[0], opt.TimeoutS}, {all[1], opt.TimeoutS}, {all[2], opt.TimeoutS}}
+	}
+	for _, sg := range stages {
+		s := sg.cfg
+		st, out, secs := runSolver(s, file, sg.tmo)
 		total += secs
 		lastOut = out
 		if st == "sat" || st == "unsat" {
